@@ -510,6 +510,27 @@ def _run(chk, tier, sb):
                     s2, d2 = judge_merge(small, res2)
                     if s2 == sig: case.update(small); detail = d2
                 if chk.violation(sig, case, detail): nviol += 1
+    # ---- the same property in a process that has seen a merge ABORTED by an exception (harness/prelude.py): a long-lived
+    # process must answer as a fresh one; the same judge is applied to merges made after the aborted call
+    both = [c for c in cases if any((lc.get('source') != bc.get('source')) and (rc.get('source') != bc.get('source'))
+                                    for bc, lc, rc in zip(c['base']['cells'], c['local']['cells'], c['remote']['cells']))]
+    sub = (both + cases)[: (40 if tier == 'quick' else 400)]
+    aborted_evals = 0
+    for cfg in CONFIGS:
+        ares = core.run_impl([dict(c, op='merge') for c in sub], shards=12, script=RUNNER, env_extra=dict(sb.env(cfg), NBV_PRELUDE='abort'))
+        rep = set()
+        for c, res in zip(sub, ares):
+            aborted_evals += 1
+            if 'err' in res: continue                      # a raising merge is C03's subject
+            sig, detail = judge_merge(c, res)
+            if sig:
+                sig = 'after-aborted-merge:' + sig
+                if sig in rep: continue
+                rep.add(sig)
+                if chk.violation(sig, {'base': c['base'], 'local': c['local'], 'remote': c['remote'], 'config': cfg, 'scenario': c['scenario'],
+                                       'history': 'one generic merge under strategy "fail" raised inside the line-wise string merge earlier in this process (harness/prelude.py)'}, detail):
+                    nviol += 1
+    chk.cov['merges_judged_after_an_aborted_merge_in_the_same_process'] = aborted_evals
     # ---- the contract on every real call seen (this is the hypothesis of the inline_source theorems)
     seen = set(); contract_items = []; ncalls = {'git': 0, 'diff3': 0, 'builtin': 0}; cviol = {}
     for b_, l, r_, m, st, cfg in calls:
